@@ -17,14 +17,15 @@ ID = "C19"
 LEVEL = "model_checking"
 RULE = ("harnesses: H0 every leftover cache directory (installed files x stale temp copy x lock file x time stamp) then a "
         "load of each version; H1 two populators || one loader on an empty cache; H2 one populator crashed at every point, then loader, "
-        "populator, loader; H3 populator || populator; H4 two CacheLock holders (time-out allowed to fire); H5 refresh interval "
+        "populator, loader; H3 populator || populator; H4 two CacheLock holders (time-out allowed to fire), H4c three holders; H5 refresh interval "
         "x clock answers x torn time-stamp files; H6 network refresh (fake server) crashed at every point || loader.  Every "
         "execution with <= B deviations (preemption of a runnable process, lock time-out, crash) is run on the real functions; "
         "state = (directory contents, lock holder, per-process program point) reached after each step; transition = one "
         "interposed operation; non-trivial = execution with at least one deviation")
 ASSUMPTIONS = [
     "a single interposed file-system call is atomic (kernel semantics); a reader sees a snapshot of the file it opens",
-    "the lock model (exclusive, blocking until released or until the time-out fires, released on process death) stands in for "
+    "the lock model (exclusive, blocking until released or until the time-out fires, released on process death, attached to "
+    "the file opened at acquire time - removing the path makes later comers lock a new file) stands in for "
     "portalocker; its conformance with the real portalocker is checked by ./check --selftest with two real processes",
     "processes are modelled as threads: process-local state (lru caches, HED_CACHE_DIRECTORY, os.getpid) is given per process "
     "or reset per execution",
@@ -81,7 +82,13 @@ class OsProxy:
 
     def remove(self, p):
         pt("remove", p)
-        return os.remove(p)
+        r = os.remove(p)
+        x = CUR
+        if x is not None:
+            # a lock belongs to the file that was opened, not to the path: a removed path names a new file from now on
+            gens = x.__dict__.setdefault("file_generation", {})
+            gens[p] = gens.get(p, 0) + 1
+        return r
 
     def getpid(self):
         x = CUR
@@ -130,6 +137,13 @@ class WFile:
     def __init__(self, path, mode):
         self.path, self.buf, self.binary = path, ("" if "b" not in mode else b""), "b" in mode
         pt("open-for-write", path)
+        if "x" in mode and os.path.exists(path):
+            raise FileExistsError(17, "File exists", path)
+        if "a" in mode and os.path.exists(path):
+            with open(path, "rb") as f:
+                old = f.read()
+            self.buf = old if self.binary else old.decode("utf8", "replace")
+            return
         with open(path, "wb"):
             pass
 
@@ -180,9 +194,19 @@ class ModelLock:
         self.filename = filename
         self.held = False
 
+    def _key(self):
+        x = CUR
+        gen = x.__dict__.get("file_generation", {}).get(self.filename, 0) if x is not None else 0
+        return self.filename if not gen else f"{self.filename}#{gen}"
+
     def acquire(self, *a, **kw):
         import portalocker
-        mode = pt("lock-acquire", self.filename)
+        # the file is opened (created if need be) first; the wait is for the lock of that very file
+        if not os.path.exists(self.filename):
+            with open(self.filename, "a"):
+                pass
+        self.key = self._key()
+        mode = pt("lock-acquire", self.key)
         if mode == "timeout":
             raise portalocker.exceptions.AlreadyLocked("model lock time-out")
         x = CUR
@@ -201,8 +225,9 @@ class ModelLock:
         x = CUR
         if x is not None:
             me = x.me()
-            if me is not None and x.locks.get(self.filename) == me.pid:
-                del x.locks[self.filename]
+            key = getattr(self, "key", self.filename)
+            if me is not None and x.locks.get(key) == me.pid:
+                del x.locks[key]
         else:
             WORLD.seq_locks.pop(self.filename, None)
         self.held = False
@@ -539,6 +564,52 @@ def h4(rec, world, shard, nshards, bound):
     return sched.explore(mk, bound, chk, shard_filter(shard, nshards))
 
 
+def h4c(rec, world, shard, nshards, bound):
+    """Three holders of the cache lock on one directory (a holder, a waiter that arrived meanwhile, a late comer): never two
+    inside at once."""
+    state = {"inside": 0, "overlap": False}
+
+    def holder(tag):
+        def body():
+            from hed.schema.hed_cache_lock import CacheLock, CacheException
+            try:
+                with CacheLock(WORLD.cache, write_time=False):
+                    state["inside"] += 1
+                    if state["inside"] > 1:
+                        state["overlap"] = True
+                    pt("in-critical-section", tag)
+                    state["inside"] -= 1
+                return ("held", tag)
+            except CacheException:
+                return ("gave-up", tag)
+        return body
+    procs = [("holder-A", holder("A"), False), ("holder-B", holder("B"), False), ("holder-C", holder("C"), False)]
+
+    def mk(choices):
+        state.update(inside=0, overlap=False)
+        return run_exec(world, procs, choices, crash=False)
+
+    def chk(x):
+        rec.n("evaluations")
+        rec.n("transitions", len(x.points))
+        if x.deviations:
+            rec.n("distinct_nontrivial")
+        where = {"harness": "H4c", "choices": x.taken, "schedule": [(pid, v, k) for pid, v, k, d in x.log]}
+        if state["overlap"]:
+            rec.violation("C19:H4c:two-lock-holders-overlap", **where)
+        timeouts = [pid for pid, v, k, d in x.log if v == "timeout"]
+        for p in x.procs:
+            if p.error is not None:
+                rec.violation(f"C19:H4c:holder-raised:{type(p.error).__name__}", error=repr(p.error)[:200], **where)
+            elif p.pid in timeouts and p.result[0] != "gave-up":
+                rec.violation("C19:H4c:time-out-did-not-give-up-with-cache-error", result=p.result, **where)
+            elif p.pid not in timeouts and p.result[0] != "held":
+                rec.violation("C19:H4c:holder-without-contention-gave-up", result=p.result, **where)
+        rec.outcome("H4c:" + ",".join(sorted(p.result[0] for p in x.procs if p.result)))
+        rec.state(("H4c", tuple(x.taken)))
+    return sched.explore(mk, bound, chk, shard_filter(shard, nshards))
+
+
 def h0(rec, world, versions):
     """Every leftover cache directory an earlier process can leave behind, followed by one load of each installed version
     (sequential): each installed file {absent, complete}, a stale temporary copy {absent, half}, lock file {absent, present},
@@ -716,6 +787,7 @@ def worker(rec, shard, nshards, scratch, files, bounds, thorough, seed):
                      ("H2", lambda: h2(rec, WORLD, shard, nshards, versions)),
                      ("H3", lambda: h3(rec, WORLD, shard, nshards, bounds["H3"], versions)),
                      ("H4", lambda: h4(rec, WORLD, shard, nshards, bounds["H4"])),
+                     ("H4c", lambda: h4c(rec, WORLD, shard, nshards, bounds["H4c"])),
                      ("H6", lambda: h6(rec, WORLD, shard, nshards, bounds["H6"], versions[0]))):
         st = fn()
         rec.n("executions_" + name, st["executions"])
@@ -729,7 +801,8 @@ def worker(rec, shard, nshards, scratch, files, bounds, thorough, seed):
 def run(ctx):
     files = ["HED8.3.0.xml", "HED8.2.0.xml"] if not ctx.thorough else ["HED8.3.0.xml", "HED8.2.0.xml",
                                                                       "HED_score_1.1.0.xml", "HED_testlib_2.0.0.xml"]
-    bounds = {"H1": 1, "H3": 2, "H4": 2, "H6": 1} if not ctx.thorough else {"H1": 2, "H3": 2, "H4": 3, "H6": 2}
+    bounds = ({"H1": 1, "H3": 2, "H4": 2, "H4c": 2, "H6": 1} if not ctx.thorough else
+              {"H1": 2, "H3": 2, "H4": 3, "H4c": 3, "H6": 2})
     scratch = ctx.subdir("c19")
     ctx.rec.notes["bounds"] = {"installed_files": files, "deviation_bounds": bounds,
                                "H2": "crash at every point of the populator (bound 1) + sequential continuation"}
